@@ -202,7 +202,7 @@ class Run(object):
             self.faults.append("replay of %s crashed: %s" % (oid, out[-500:]))
             return path
         # no concrete input: only a violation if this obligation is known to be provable on the unchanged tree
-        if oid in self.baseline.get("proved", []):
+        if oid in self.baseline.get("proved", []) or oid in self.baseline.get("proved_thorough", []):
             self.violations.append((oid, path, " no-failing-input-found"))
         else:
             self.undecided.append((oid, "refuted without concrete input and not in the proved baseline"))
@@ -230,7 +230,8 @@ class Run(object):
         # vacuity guards
         if nobl == 0:
             self.faults.append("no obligations were generated (vacuous run)")
-        exp = self.baseline.get("proved")
+        # the baseline is kept per tier: the thorough tier generates obligations the quick tier does not
+        exp = self.baseline.get("proved_thorough" if self.tier == "thorough" and "proved_thorough" in self.baseline else "proved")
         if exp is not None:
             have = set(o.id for o in self.obligations)
             missing = [e for e in exp if e not in have]
